@@ -53,6 +53,9 @@ class Run:
         s.tlog('ctor-returned')
         for x in c['items']:
             try:
+                if isinstance(x, list) and x and x[0] == 'kw':
+                    w.enqueue(x[1], big=x[2])      # an input that overrides a default keyword argument (its result shows it)
+                    continue
                 w.enqueue(x)
             except Exception as e:   # noqa
                 self.info.setdefault('enqueue-exc', []).append(type(e).__name__)
@@ -184,6 +187,9 @@ class Run:
             return V
         expected = []
         for x in c['items']:
+            if isinstance(x, list) and x and x[0] == 'kw':
+                expected.append([x[1], 'r' * x[2]])
+                continue
             if x in c['poison'] or x in (c.get('origin_only') or []) or isinstance(x, dict):
                 break       # (a result the parent cannot rebuild ends the stream of a remote worker like a failure does)
             expected.append(['r', x])
@@ -320,6 +326,9 @@ def plan(ctx):
         cs = mk_case(ctx, kind, items, rng.choice(['next', 'iter', 'mux']), i, fault=fault, poison=poison, policy=pol, knobs=knobs, tag='random', origin_only=unb)
         if rng.random() < 0.3:
             cs['early'] = True
+        if cs['items'] and rng.random() < 0.2:
+            # inputs of mixed shape: some override a default keyword argument, the ones after them do not
+            cs['items'] = [['kw', x, rng.randrange(1, 6)] if (x not in poison and x not in unb and rng.random() < 0.4) else x for x in cs['items']]
         if kind != 'pthread' and rng.random() < 0.12:
             cs['early'] = False
             cs['fault'] = None
